@@ -341,7 +341,7 @@ impl ConnectionPool {
                 let old_pool_ref = get_pool(pool_name, &user.username);
                 let identifier = PoolIdentifier::new(pool_name, &user.username);
 
-                if let Some(pool) = old_pool_ref {
+                if let Some(ref pool) = old_pool_ref {
                     // If the pool hasn't changed, get existing reference and insert it into the new_pools.
                     // We replace all pools at the end, but if the reference is kept, the pool won't get re-created (bb8).
                     if pool.config_hash == new_pool_hash_value {
@@ -608,8 +608,16 @@ impl ConnectionPool {
                         },
                     }),
                     validated: Arc::new(AtomicBool::new(false)),
-                    paused: Arc::new(AtomicBool::new(false)),
-                    paused_waiter: Arc::new(Notify::new()),
+                    // A pool that replaces a paused one stays paused, and the RESUME that ends the
+                    // pause also releases the clients that are waiting on the old one.
+                    paused: match old_pool_ref {
+                        Some(ref old_pool) => old_pool.paused.clone(),
+                        None => Arc::new(AtomicBool::new(false)),
+                    },
+                    paused_waiter: match old_pool_ref {
+                        Some(ref old_pool) => old_pool.paused_waiter.clone(),
+                        None => Arc::new(Notify::new()),
+                    },
                     prepared_statement_cache: match pool_config.prepared_statements_cache_size {
                         0 => None,
                         _ => Some(Arc::new(Mutex::new(PreparedStatementCache::new(
@@ -630,6 +638,14 @@ impl ConnectionPool {
 
                 // There is one pool per database/user pair.
                 new_pools.insert(PoolIdentifier::new(pool_name, &user.username), pool);
+            }
+        }
+
+        // Nobody can resume a pool that is gone: let the clients waiting on it go, they will
+        // find out that their pool does not exist any more.
+        for (identifier, old_pool) in get_all_pools() {
+            if !new_pools.contains_key(&identifier) {
+                old_pool.resume();
             }
         }
 
